@@ -49,7 +49,10 @@ def run(tier):
               "notes": (["notes.pn", "a.pn"], True), "zero": (["a.pn", "zero.pn"], False),
               # a module whose name does not end in .pn (the back end runs all the same), and an error after text outside
               # ASCII (locations count characters; the renderer must be told so: the snippet and line:column are right)
-              "otherext": (["prog.penne"], True), "noext": (["prog"], True), "accent": (["accent.pn"], False)}   # a zero-byte file is an error (E101)        # a module without declarations (only a comment) is a module
+              "otherext": (["prog.penne"], True), "noext": (["prog"], True), "accent": (["accent.pn"], False),
+              # compilations that fail inside the generator / LLVM's verifier (the listed findings D45 and D60 of C02/C10: no
+              # rendered diagnostic): whatever is printed, the tool must not report success, run a back end or leave IR behind
+              "huge": (["huge.pn"], False), "opaque": (["opaque.pn"], False)}   # a zero-byte file is an error (E101)        # a module without declarations (only a comment) is a module
     for sub in ("build", "run", "emit"):
         for inp in inputs:
             opts_space = [("silent", [False, True]), ("verbose", [False, True]), ("color", [None, "never", "always"]), ("arrows", [None, "ascii", "unicode"]),
@@ -72,6 +75,8 @@ def run(tier):
         open(os.path.join(d, "bad.pn"), "w").write(INVALID); open(os.path.join(d, "hint.pn"), "w").write(INVALID_HINT)
         open(os.path.join(d, "notes.pn"), "w").write("// notes only: nothing is declared here\n")
         open(os.path.join(d, "zero.pn"), "w").write("")
+        open(os.path.join(d, "huge.pn"), "w").write("struct Big\n{\n\tdata: [5000000000]u8,\n}\nfn touch(big: &Big) -> i32\n{\n\treturn: 1\n}\nfn main() -> i32\n{\n\treturn: 0\n}\n")
+        open(os.path.join(d, "opaque.pn"), "w").write("struct Foo;\nfn main() -> i32\n{\n\tvar x: Foo;\n\treturn: 0\n}\n")
         open(os.path.join(d, "prog.penne"), "w").write(VALID_A); open(os.path.join(d, "prog"), "w").write(VALID_A)
         open(os.path.join(d, "accent.pn"), "w", encoding="utf-8").write("// Berechnet die Größe der Tabelle für das Café «Zoë» ✓✓✓✓✓✓✓✓✓✓✓✓✓✓✓✓ €€€€ 😀😀\n" + INVALID.replace("fn main", "// ï\nfn main"))
         for rel, text in DIRS.items():
@@ -140,6 +145,11 @@ def run(tier):
                 path = os.path.join(d, "out", f + ".ll")
                 if os.path.exists(path) and "wasm32" not in open(path).read().split("target triple")[1].split("\n")[0]:
                     bad += 1; ck.violation("wasm-module-triple", "--wasm: the IR written for module %s does not have the wasm32 target triple" % f, replay); break
+        if inp in ("huge", "opaque"):
+            lls_ = [f_ for dp, _, fs in os.walk(d) for f_ in fs if f_.endswith(".ll")]
+            if lls_:
+                bad += 1; ck.violation("ir-left-by-failed-compilation", "a compilation that failed in the generator left IR behind: %s (%s)" % (lls_, desc), replay)
+            continue
         if not ok and not o["silent"]:
             if (b"E101" if inp == "zero" else b"E402" if inp != "hint" else b"E47") not in out:
                 bad += 1; ck.violation("diagnostic-missing", "failing compilation without a rendered diagnostic (%s)" % desc, replay); continue
